@@ -26,11 +26,17 @@ from harness.dy import dy, undy
 ALL_KINDS = ("standard", "standard", "even_asphere", "polynomial", "chebyshev")
 
 
-def _rays(rnd, n, steep=False):
+def _rays(rnd, n, steep=False, stray=False):
+    """n rays inside the pupil; with stray=True one more ray far outside it, which misses the
+    first curved surface: the other rays of the bundle must be traced exactly as without it."""
     Hy = np.array([rnd.uniform(-1, 1) for _ in range(n)])
     rr = np.sqrt(np.array([rnd.random() for _ in range(n)])) * (1.0 if steep else 0.95)
     th = np.array([rnd.uniform(0, 2 * math.pi) for _ in range(n)])
-    return np.zeros(n), Hy, rr * np.cos(th), rr * np.sin(th)
+    if stray:
+        Hy = np.append(Hy, 0.0)
+        rr = np.append(rr, rnd.choice([30.0, 300.0]))
+        th = np.append(th, rnd.uniform(0, 2 * math.pi))
+    return np.zeros(len(Hy)), Hy, rr * np.cos(th), rr * np.sin(th)
 
 
 def trace_random_lens(args):
@@ -44,9 +50,11 @@ def trace_random_lens(args):
     events = []
     try:
         for w in optic.wavelengths.get_wavelengths():
-            Hx, Hy, Px, Py = _rays(rnd, nrays)
+            Hx, Hy, Px, Py = _rays(rnd, nrays, stray=(seed % 2 == 1))
             G.quiet(optic.trace_generic, Hx, Hy, Px, Py, w)
-            events += RR.record_events(optic, w, ray_base=len(events))
+            # the stray ray is outside the pupil, hence outside the property's quantifier: it is the
+            # environment of the other rays, not a judged ray
+            events += RR.record_events(optic, w, ray_base=len(events), max_rays=nrays)
     except Exception as ex:
         return {"error": "trace: %s: %s" % (type(ex).__name__, ex), "seed": seed, "events": [], "meta": meta}
     return {"seed": seed, "meta": meta, "events": events, "dict": None}
